@@ -1,6 +1,8 @@
 //@unit props=C04,C13 tier=quick rlimit=30
 //@file src/algo/bfs.rs
 use vstd::prelude::*;
+use vstd::set_lib::*;
+use vstd::slice::SliceIndexSpec;
 use std::collections::VecDeque;
 use vstd::std_specs::iter::IteratorSpec;
 verus! {
@@ -8,14 +10,278 @@ global size_of usize == 8;
 //@include prelude/std_contracts.rs
 //@include prelude/dg.rs
 //@include speclib/graph.rs
+//@include speclib/bfs_lemmas.rs
+
+// ---------------------------------------------------------------------------------------------
+// concrete state -> abstract state (speclib/bfs_lemmas.rs)
+// ---------------------------------------------------------------------------------------------
+spec fn dg_has(dg: &Dg) -> ArcRel { |u: int, v: int| dg.has(u, v) }
+
+/// queue vertices / levels of a BfsDist queue
+spec fn qv_of(q: Seq<(usize, usize)>) -> Seq<int> { Seq::new(q.len(), |i: int| q[i].0 as int) }
+spec fn lv_of(q: Seq<(usize, usize)>) -> Seq<int> { Seq::new(q.len(), |i: int| q[i].1 as int) }
+/// queue vertices of a Bfs queue
+spec fn qv_of1(q: Seq<usize>) -> Seq<int> { Seq::new(q.len(), |i: int| q[i] as int) }
+
+/// entries appended by one step
+spec fn new_entries(add: Seq<int>, w: usize) -> Seq<(usize, usize)> { Seq::new(add.len(), |k: int| (add[k] as usize, w)) }
+spec fn new_entries1(add: Seq<int>) -> Seq<usize> { Seq::new(add.len(), |k: int| add[k] as usize) }
+
+/// v occurs among the first k items of s
+spec fn seen_upto(s: Seq<usize>, k: int, v: int) -> bool { exists|j: int| 0 <= j < k && j < s.len() && #[trigger] s[j] == v }
+
+/// x occurs in s at position >= k
+spec fn rest_has(s: Seq<usize>, k: int, x: usize) -> bool { exists|j: int| k <= j < s.len() && #[trigger] s[j] == x }
+
+/// the step relation without levels (what Bfs::next exposes)
+spec fn vstep(has: ArcRel, qv: Seq<int>, vis: Seq<bool>, qv2: Seq<int>, vis2: Seq<bool>, add: Seq<int>) -> bool {
+    &&& qv.len() > 0
+    &&& vis2.len() == vis.len()
+    &&& add.no_duplicates()
+    &&& forall|k: int| 0 <= k < add.len() ==> 0 <= #[trigger] add[k] < vis.len() && !vis[add[k]] && has(qv[0], add[k])
+    &&& forall|v: int| #[trigger] has(qv[0], v) && 0 <= v < vis.len() && !vis[v] ==> add.contains(v)
+    &&& forall|v: int| 0 <= v < vis.len() ==> #[trigger] vis2[v] == (vis[v] || add.contains(v))
+    &&& qv2 == qv.skip(1) + add
+}
+
+/// has(a, b) ==> a, b in range, from digraph validity
+proof fn lemma_has_range(dg: &Dg)
+    requires dg.wf(),
+    ensures forall|a: int, b: int| #[trigger] dg_has(dg)(a, b) ==> 0 <= b < dg.ord() && 0 <= a < dg.ord(),
+{
+    assert forall|a: int, b: int| #[trigger] dg_has(dg)(a, b) implies 0 <= b < dg.ord() && 0 <= a < dg.ord() by {
+        assert(dg.has(a, b));
+    }
+}
+
+// ---- the neighbour loop of `next` (shared by Bfs and BfsDist): state of visited / newly added vertices -------------
+/// after k of the out-neighbours nb of u have been processed
+#[verifier::opaque]
+spec fn loop_inv(dg: &Dg, u: usize, vis0: Seq<bool>, vis: Seq<bool>, add: Seq<int>, nb: Seq<usize>, k: int) -> bool {
+    &&& dg.wf() && vis0.len() == dg.ord() && vis.len() == vis0.len() && u < dg.ord() && 0 <= k <= nb.len()
+    &&& add.no_duplicates()
+    &&& forall|i: int| 0 <= i < nb.len() ==> dg.has(u as int, #[trigger] nb[i] as int)
+    &&& forall|j: int| 0 <= j < add.len() ==> 0 <= #[trigger] add[j] < vis0.len() && !vis0[add[j]] && dg.has(u as int, add[j])
+    &&& forall|x: usize| #[trigger] dg.has(u as int, x as int) ==> vis0[x as int] || add.contains(x as int) || rest_has(nb, k, x)
+    &&& forall|v: int| 0 <= v < vis.len() ==> #[trigger] vis[v] == (vis0[v] || add.contains(v))
+    &&& ct(vis) == ct(vis0) + add.len()
+}
+
+/// all out-neighbours processed
+#[verifier::opaque]
+spec fn step_done(dg: &Dg, u: usize, vis0: Seq<bool>, vis: Seq<bool>, add: Seq<int>) -> bool {
+    &&& dg.wf() && vis0.len() == dg.ord() && vis.len() == vis0.len() && u < dg.ord()
+    &&& add.no_duplicates()
+    &&& forall|j: int| 0 <= j < add.len() ==> 0 <= #[trigger] add[j] < vis0.len() && !vis0[add[j]] && dg.has(u as int, add[j])
+    &&& forall|x: usize| #[trigger] dg.has(u as int, x as int) ==> vis0[x as int] || add.contains(x as int)
+    &&& forall|v: int| 0 <= v < vis.len() ==> #[trigger] vis[v] == (vis0[v] || add.contains(v))
+    &&& ct(vis) == ct(vis0) + add.len()
+}
+
+proof fn lemma_loop_init(dg: &Dg, u: usize, vis0: Seq<bool>)
+    requires dg.wf(), vis0.len() == dg.ord(), u < dg.ord(),
+    ensures
+        forall|nb: Seq<usize>| (forall|x: usize| dg.has(u as int, x as int) ==> nb.contains(x))
+            && (forall|i: int| 0 <= i < nb.len() ==> dg.has(u as int, #[trigger] nb[i] as int))
+            ==> #[trigger] loop_inv(dg, u, vis0, vis0, Seq::<int>::empty(), nb, 0),
+        (forall|x: usize| !dg.has(u as int, x as int)) ==> step_done(dg, u, vis0, vis0, Seq::<int>::empty()),
+{
+    reveal(loop_inv);
+    reveal(step_done);
+    let e = Seq::<int>::empty();
+    assert forall|nb: Seq<usize>| (forall|x: usize| dg.has(u as int, x as int) ==> nb.contains(x))
+            && (forall|i: int| 0 <= i < nb.len() ==> dg.has(u as int, #[trigger] nb[i] as int))
+        implies #[trigger] loop_inv(dg, u, vis0, vis0, e, nb, 0) by {
+        assert forall|x: usize| #[trigger] dg.has(u as int, x as int) implies rest_has(nb, 0, x) by {
+            assert(nb.contains(x));
+            let j = choose|j: int| 0 <= j < nb.len() && nb[j] == x;
+            assert(nb[j] == x);
+        }
+    }
+}
+
+proof fn lemma_loop_step(dg: &Dg, u: usize, vis0: Seq<bool>, vis: Seq<bool>, add: Seq<int>, nb: Seq<usize>, k: int, vis2: Seq<bool>, add2: Seq<int>)
+    requires
+        loop_inv(dg, u, vis0, vis, add, nb, k),
+        0 <= k < nb.len(),
+        nb[k] < vis.len(),
+        if vis[nb[k] as int] { vis2 == vis && add2 == add } else { vis2 == vis.update(nb[k] as int, true) && add2 == add.push(nb[k] as int) },
+    ensures
+        loop_inv(dg, u, vis0, vis2, add2, nb, k + 1),
+        k + 1 == nb.len() ==> step_done(dg, u, vis0, vis2, add2),
+{
+    reveal(loop_inv);
+    reveal(step_done);
+    let v = nb[k] as int;
+    assert(dg.has(u as int, nb[k] as int));
+    if !vis[v] {
+        assert(!add.contains(v));
+        assert(!vis0[v]);
+        lemma_ct_set(vis, v);
+        assert forall|x: int| add2.contains(x) <==> add.contains(x) || x == v by {
+            if add.contains(x) {
+                let j = choose|j: int| 0 <= j < add.len() && add[j] == x;
+                assert(add2[j] == x);
+            }
+            assert(add2[add.len() as int] == v);
+        }
+        assert forall|j: int| 0 <= j < add2.len() implies 0 <= #[trigger] add2[j] < vis0.len() && !vis0[add2[j]] && dg.has(u as int, add2[j]) by {
+            if j < add.len() { assert(add2[j] == add[j]); }
+        }
+    }
+    assert forall|x: usize| #[trigger] dg.has(u as int, x as int) implies vis0[x as int] || add2.contains(x as int) || rest_has(nb, k + 1, x) by {
+        if rest_has(nb, k, x) && !(vis0[x as int] || add.contains(x as int)) {
+            let j = choose|j: int| k <= j < nb.len() && #[trigger] nb[j] == x;
+            if j > k { assert(rest_has(nb, k + 1, x)); }
+        }
+    }
+    if k + 1 == nb.len() {
+        assert forall|x: usize| #[trigger] dg.has(u as int, x as int) implies vis0[x as int] || add2.contains(x as int) by {
+            assert(!rest_has(nb, k + 1, x));
+        }
+    }
+}
+
+/// step_done in terms of the abstract step relation
+proof fn lemma_step_done_vstep(dg: &Dg, u: usize, vis0: Seq<bool>, vis: Seq<bool>, add: Seq<int>, qv: Seq<int>, qv2: Seq<int>)
+    requires
+        step_done(dg, u, vis0, vis, add),
+        qv.len() > 0,
+        qv[0] == u,
+        qv2 == qv.skip(1) + add,
+    ensures
+        vstep(dg_has(dg), qv, vis0, qv2, vis, add),
+        ct(vis) == ct(vis0) + add.len(),
+        forall|j: int| 0 <= j < add.len() ==> 0 <= #[trigger] add[j] < vis0.len(),
+{
+    reveal(step_done);
+    let has = dg_has(dg);
+    assert forall|x: int| #[trigger] has(qv[0], x) && 0 <= x < vis0.len() && !vis0[x] implies add.contains(x) by {
+        let xu = x as usize;
+        assert(dg.has(u as int, xu as int));
+    }
+}
+
+// ---------------------------------------------------------------------------------------------
+// Bfs
+// ---------------------------------------------------------------------------------------------
+spec fn wf1(dg: &Dg, q: Seq<usize>, vis: Seq<bool>) -> bool {
+    &&& dg.wf()
+    &&& vis.len() == dg.ord()
+    &&& forall|i: int| 0 <= i < q.len() ==> #[trigger] q[i] < vis.len()
+}
+
+spec fn inv1(dg: &Dg, q: Seq<usize>, vis: Seq<bool>, srcs: Set<int>) -> bool {
+    exists|lv: Seq<int>, d: spec_fn(int) -> int| binv(dg_has(dg), qv_of1(q), lv, vis, srcs, d)
+}
+
+/// what one call of Bfs::next (returning Some(q0[0])) means for every source set the invariant holds for
+spec fn next_sem1(dg: &Dg, q0: Seq<usize>, vis0: Seq<bool>, q: Seq<usize>, vis: Seq<bool>, srcs: Set<int>) -> bool {
+    &&& inv1(dg, q, vis, srcs)
+    &&& reachable(dg_has(dg), srcs, q0[0] as int)
+    &&& is_min_walk_weight(dg_has(dg), unit_w(), srcs, q0[0] as int, hop(dg_has(dg), srcs, q0[0] as int))
+    &&& !is_done(qv_of1(q0), vis0, q0[0] as int)
+    &&& forall|v: int| is_done(qv_of1(q), vis, v) <==> is_done(qv_of1(q0), vis0, v) || v == q0[0]
+    &&& forall|i: int| 0 <= i < q.len() ==> hop(dg_has(dg), srcs, q0[0] as int) <= hop(dg_has(dg), srcs, #[trigger] q[i] as int)
+}
+
+proof fn lemma_next_end1_sem(dg: &Dg, q0: Seq<usize>, vis0: Seq<bool>, q: Seq<usize>, vis: Seq<bool>, add: Seq<int>, srcs: Set<int>)
+    requires
+        wf1(dg, q0, vis0),
+        vstep(dg_has(dg), qv_of1(q0), vis0, qv_of1(q), vis, add),
+        inv1(dg, q0, vis0, srcs),
+    ensures
+        next_sem1(dg, q0, vis0, q, vis, srcs),
+{
+    let has = dg_has(dg);
+    let qv = qv_of1(q0);
+    let qv2 = qv_of1(q);
+    lemma_has_range(dg);
+    let (lv, d) = choose|lv: Seq<int>, d: spec_fn(int) -> int| binv(has, qv, lv, vis0, srcs, d);
+    let lv2 = lv.skip(1) + Seq::new(add.len(), |k: int| lv[0] + 1);
+    assert(bstep(has, qv, lv, vis0, qv2, lv2, vis, add));
+    lemma_next_post(has, qv, lv, vis0, qv2, lv2, vis, add, srcs);
+    let d2 = choose|d2: spec_fn(int) -> int| binv(has, qv2, lv2, vis, srcs, d2);
+    assert(binv(has, qv2, lv2, vis, srcs, d2));
+    lemma_hop(has, srcs, qv[0], lv[0]);
+    lemma_witness_reachable(has, unit_w(), srcs, qv[0], lv[0]);
+    assert forall|i: int| 0 <= i < q.len() implies hop(has, srcs, q0[0] as int) <= hop(has, srcs, #[trigger] q[i] as int) by {
+        lemma_queue_exact(has, qv2, lv2, vis, srcs, d2, i);
+        lemma_hop(has, srcs, qv2[i], lv2[i]);
+        assert(lv[0] <= lv2[i]);
+    }
+}
+
+proof fn lemma_next_end1(dg: &Dg, q0: Seq<usize>, vis0: Seq<bool>, q: Seq<usize>, vis: Seq<bool>, add: Seq<int>)
+    requires
+        wf1(dg, q0, vis0),
+        q0.len() > 0,
+        step_done(dg, q0[0], vis0, vis, add),
+        q == q0.skip(1) + new_entries1(add),
+    ensures
+        wf1(dg, q, vis),
+        vstep(dg_has(dg), qv_of1(q0), vis0, qv_of1(q), vis, add),
+        vis.len() - ct(vis) + q.len() == vis0.len() - ct(vis0) + q0.len() - 1,
+        forall|srcs: Set<int>| #[trigger] inv1(dg, q0, vis0, srcs) ==> next_sem1(dg, q0, vis0, q, vis, srcs),
+{
+    lemma_step_done_vstep(dg, q0[0], vis0, vis, add, qv_of1(q0), qv_of1(q0).skip(1) + add);
+    assert(qv_of1(q) =~= qv_of1(q0).skip(1) + add);
+    assert forall|i: int| 0 <= i < q.len() implies #[trigger] q[i] < vis.len() by {
+        if i < q0.len() - 1 {
+            assert(q[i] == q0[i + 1]);
+        } else {
+            assert(q[i] == add[i - (q0.len() - 1)] as usize);
+        }
+    }
+    assert forall|srcs: Set<int>| #[trigger] inv1(dg, q0, vis0, srcs) implies next_sem1(dg, q0, vis0, q, vis, srcs) by {
+        lemma_next_end1_sem(dg, q0, vis0, q, vis, add, srcs);
+    }
+}
+
+proof fn lemma_exhausted1(dg: &Dg, q: Seq<usize>, vis: Seq<bool>)
+    requires q.len() == 0,
+    ensures forall|srcs: Set<int>| #[trigger] inv1(dg, q, vis, srcs) ==> (forall|v: int| is_done(qv_of1(q), vis, v) <==> reachable(dg_has(dg), srcs, v)),
+{
+    assert forall|srcs: Set<int>| #[trigger] inv1(dg, q, vis, srcs) implies (forall|v: int| is_done(qv_of1(q), vis, v) <==> reachable(dg_has(dg), srcs, v)) by {
+        let (lv, d) = choose|lv: Seq<int>, d: spec_fn(int) -> int| binv(dg_has(dg), qv_of1(q), lv, vis, srcs, d);
+        lemma_exhausted_ex(dg_has(dg), qv_of1(q), lv, vis, srcs);
+    }
+}
 
 /*@struct name=Bfs subst=D=>Dg drop=D @*/
 
 impl<'a> Bfs<'a> {
-    spec fn inv(&self) -> bool {
-        &&& self.digraph.wf()
-        &&& self.visited.len() == self.digraph.ord()
-        &&& forall|i: int| 0 <= i < self.queue@.len() ==> #[trigger] self.queue@[i] < self.visited.len()
+    spec fn has(&self) -> ArcRel { dg_has(self.digraph) }
+    spec fn qv(&self) -> Seq<int> { qv_of1(self.queue@) }
+
+    /// memory-safety part of the invariant
+    spec fn wf(&self) -> bool { wf1(self.digraph, self.queue@, self.visited@) }
+
+    /// BFS invariant relative to the source set (levels and the level function are existential: no ghost state)
+    spec fn inv(&self, srcs: Set<int>) -> bool { inv1(self.digraph, self.queue@, self.visited@, srcs) }
+
+    /// already yielded
+    spec fn done(&self, v: int) -> bool { is_done(self.qv(), self.visited@, v) }
+
+    /// state built by `new` from distinct in-range sources
+    spec fn fresh(&self) -> bool {
+        &&& self.wf()
+        &&& self.qv().no_duplicates()
+        &&& forall|v: int| #[trigger] is_vis(self.visited@, v) <==> self.qv().contains(v)
+    }
+
+    spec fn srcs(&self) -> Set<int> { self.qv().to_set() }
+
+    /// #vertices not yet yielded (termination measure of any driver loop)
+    spec fn fuel(&self) -> int { self.visited@.len() - ct(self.visited@) + self.queue@.len() }
+
+    proof fn lemma_fresh_inv(&self)
+        requires self.fresh(),
+        ensures self.inv(self.srcs()), forall|v: int| !self.done(v),
+    {
+        let lv = Seq::new(self.qv().len(), |i: int| 0int);
+        lemma_fresh(self.has(), self.qv(), lv, self.visited@);
+        assert(binv(self.has(), self.qv(), lv, self.visited@, self.srcs(), |v: int| 0int));
     }
 
     /*@fn impl=Bfs name=new subst=D=>Dg drop=D dropwhere=D
@@ -23,22 +289,667 @@ impl<'a> Bfs<'a> {
         digraph.wf(),
         sources.obeys_prophetic_iter_laws(),
         sources.decrease() is Some,
+        sources.remaining().no_duplicates(),
     ensures
-        r.inv(),
+        r.digraph == digraph,
+        r.fresh(),
+        r.queue@ == sources.remaining(),
+        forall|i: int| 0 <= i < sources.remaining().len() ==> #[trigger] sources.remaining()[i] < digraph.ord(),
     @loop 1
     invariant
-        true,
+        it1.iter.obeys_prophetic_iter_laws(),
+        it1.iter.decrease() is Some,
+        it1.seq() == sources.remaining(),
+        order == digraph.ord(),
+        visited@.len() == order,
+        queue@ == it1.seq().take(it1.index()),
+        forall|i: int| 0 <= i < it1.index() ==> #[trigger] it1.seq()[i] < order,
+        forall|v: int| 0 <= v < order ==> #[trigger] visited@[v] == seen_upto(it1.seq(), it1.index(), v),
+    @loop_end 1
+        proof {
+            let k = it1.index();
+            assert(u == it1.seq()[k]);
+            assert(queue@ =~= it1.seq().take(k + 1));
+            assert forall|v: int| 0 <= v < order implies #[trigger] visited@[v] == seen_upto(it1.seq(), k + 1, v) by {
+                if seen_upto(it1.seq(), k, v) {
+                    let j = choose|j: int| 0 <= j < k && j < it1.seq().len() && #[trigger] it1.seq()[j] == v;
+                    assert(it1.seq()[j] == v);
+                }
+                if v == u { assert(it1.seq()[k] == v); }
+                if seen_upto(it1.seq(), k + 1, v) && v != u {
+                    let j = choose|j: int| 0 <= j < k + 1 && j < it1.seq().len() && #[trigger] it1.seq()[j] == v;
+                    assert(j < k);
+                }
+            }
+        }
+    @fn_end
+        proof {
+            let s = sources.remaining();
+            assert(queue@ =~= s);
+            assert(qv_of1(queue@).no_duplicates());
+            assert forall|v: int| #[trigger] is_vis(visited@, v) <==> qv_of1(queue@).contains(v) by {
+                if is_vis(visited@, v) {
+                    let j = choose|j: int| 0 <= j < s.len() && j < s.len() && #[trigger] s[j] == v;
+                    assert(qv_of1(queue@)[j] == v);
+                }
+                if qv_of1(queue@).contains(v) {
+                    let j = choose|j: int| 0 <= j < qv_of1(queue@).len() && qv_of1(queue@)[j] == v;
+                    assert(s[j] == v);
+                    assert(seen_upto(s, s.len() as int, v));
+                }
+            }
+        }
     @*/
 
     /*@fn impl=Bfs trait=Iterator name=next subst=Self::Item=>usize
     requires
-        old(self).inv(),
+        old(self).wf(),
     ensures
-        final(self).inv(),
+        final(self).wf(),
+        final(self).digraph == old(self).digraph,
+        r is None ==> old(self).queue@.len() == 0 && final(self).queue@ == old(self).queue@ && final(self).visited@ == old(self).visited@,
+        r is None ==> forall|srcs: Set<int>| #[trigger] old(self).inv(srcs) ==> (forall|v: int| old(self).done(v) <==> reachable(old(self).has(), srcs, v)),
+        r matches Some(u) ==> old(self).queue@.len() > 0 && u == old(self).queue@[0] && u < old(self).digraph.ord() && final(self).fuel() == old(self).fuel() - 1 && final(self).fuel() >= 0,
+        r is Some ==> exists|add: Seq<int>| vstep(old(self).has(), old(self).qv(), old(self).visited@, final(self).qv(), final(self).visited@, add),
+        r is Some ==> forall|srcs: Set<int>| #[trigger] old(self).inv(srcs) ==> next_sem1(old(self).digraph, old(self).queue@, old(self).visited@, final(self).queue@, final(self).visited@, srcs),
+    @before `let u = self.queue.pop_front()?;`
+        proof {
+            if self.queue@.len() == 0 { lemma_exhausted1(self.digraph, self.queue@, self.visited@); }
+        }
+        let ghost mut add: Seq<int> = Seq::empty();
+    @after `let u = self.queue.pop_front()?;`
+        proof {
+            assert(self.queue@ =~= old(self).queue@.skip(1) + new_entries1(add));
+            lemma_loop_init(self.digraph, u, self.visited@);
+        }
     @loop 1
     invariant
-        true,
+        self.digraph == old(self).digraph,
+        self.visited@.len() == self.digraph.ord(),
+        old(self).queue@.len() > 0,
+        u == old(self).queue@[0],
+        it1.iter.obeys_prophetic_iter_laws(),
+        it1.iter.decrease() is Some,
+        loop_inv(self.digraph, u, old(self).visited@, self.visited@, add, it1.seq(), it1.index()),
+        it1.index() == it1.seq().len() ==> step_done(self.digraph, u, old(self).visited@, self.visited@, add),
+        self.queue@ == old(self).queue@.skip(1) + new_entries1(add),
+    @loop_start 1
+        let ghost vis_pre = self.visited@;
+        let ghost add_pre = add;
+        proof {
+            assert(v == it1.seq()[it1.index()]);
+            assert(v < self.visited@.len()) by { reveal(loop_inv); }
+        }
+    @after `self.queue.push_back(v);`
+        proof {
+            add = add_pre.push(v as int);
+            assert(self.queue@ =~= old(self).queue@.skip(1) + new_entries1(add));
+        }
+    @loop_end 1
+        proof {
+            lemma_loop_step(self.digraph, u, old(self).visited@, vis_pre, add_pre, it1.seq(), it1.index(), self.visited@, add);
+        }
+    @fn_end
+        proof {
+            lemma_next_end1(self.digraph, old(self).queue@, old(self).visited@, self.queue@, self.visited@, add);
+            lemma_ct_bounds(self.visited@);
+            assert(vstep(old(self).has(), old(self).qv(), old(self).visited@, self.qv(), self.visited@, add));
+        }
     @*/
+}
+
+// ---------------------------------------------------------------------------------------------
+// BfsDist
+// ---------------------------------------------------------------------------------------------
+//@file src/algo/bfs_dist.rs
+/*@type name=Step @*/
+
+/// memory safety + no overflow of `w + 1`: level + queue length <= #visited (<= order <= usize::MAX)
+spec fn wf2(dg: &Dg, q: Seq<(usize, usize)>, vis: Seq<bool>) -> bool {
+    &&& dg.wf()
+    &&& vis.len() == dg.ord()
+    &&& forall|i: int| 0 <= i < q.len() ==> (#[trigger] q[i]).0 < vis.len() && q[i].1 + q.len() <= ct(vis)
+}
+
+spec fn inv2(dg: &Dg, q: Seq<(usize, usize)>, vis: Seq<bool>, srcs: Set<int>) -> bool {
+    exists|d: spec_fn(int) -> int| binv(dg_has(dg), qv_of(q), lv_of(q), vis, srcs, d)
+}
+
+/// what one call of BfsDist::next (returning Some(q0[0])) means for every source set the invariant holds for
+spec fn next_sem2(dg: &Dg, q0: Seq<(usize, usize)>, vis0: Seq<bool>, q: Seq<(usize, usize)>, vis: Seq<bool>, srcs: Set<int>) -> bool {
+    &&& inv2(dg, q, vis, srcs)
+    &&& is_min_walk_weight(dg_has(dg), unit_w(), srcs, q0[0].0 as int, q0[0].1 as int)
+    &&& !is_done(qv_of(q0), vis0, q0[0].0 as int)
+    &&& forall|v: int| is_done(qv_of(q), vis, v) <==> is_done(qv_of(q0), vis0, v) || v == q0[0].0
+    &&& forall|i: int| 0 <= i < q.len() ==> q0[0].1 <= (#[trigger] q[i]).1
+}
+
+proof fn lemma_bridge_dist(q0: Seq<(usize, usize)>, q: Seq<(usize, usize)>, add: Seq<int>, w_next: usize)
+    requires
+        q0.len() > 0,
+        w_next == q0[0].1 + 1,
+        q == q0.skip(1) + new_entries(add, w_next),
+        forall|k: int| 0 <= k < add.len() ==> 0 <= #[trigger] add[k] <= usize::MAX,
+    ensures
+        qv_of(q) == qv_of(q0).skip(1) + add,
+        lv_of(q) == lv_of(q0).skip(1) + Seq::new(add.len(), |k: int| lv_of(q0)[0] + 1),
+{
+    assert(qv_of(q) =~= qv_of(q0).skip(1) + add);
+    assert(lv_of(q) =~= lv_of(q0).skip(1) + Seq::new(add.len(), |k: int| lv_of(q0)[0] + 1));
+}
+
+proof fn lemma_next_end2_sem(dg: &Dg, q0: Seq<(usize, usize)>, vis0: Seq<bool>, q: Seq<(usize, usize)>, vis: Seq<bool>, add: Seq<int>, srcs: Set<int>)
+    requires
+        wf2(dg, q0, vis0),
+        bstep(dg_has(dg), qv_of(q0), lv_of(q0), vis0, qv_of(q), lv_of(q), vis, add),
+        inv2(dg, q0, vis0, srcs),
+    ensures
+        next_sem2(dg, q0, vis0, q, vis, srcs),
+{
+    let has = dg_has(dg);
+    lemma_has_range(dg);
+    lemma_next_post(has, qv_of(q0), lv_of(q0), vis0, qv_of(q), lv_of(q), vis, add, srcs);
+    assert forall|i: int| 0 <= i < q.len() implies q0[0].1 <= (#[trigger] q[i]).1 by {
+        assert(lv_of(q0)[0] <= lv_of(q)[i]);
+    }
+}
+
+proof fn lemma_next_end2(dg: &Dg, q0: Seq<(usize, usize)>, vis0: Seq<bool>, q: Seq<(usize, usize)>, vis: Seq<bool>, add: Seq<int>, w_next: usize)
+    requires
+        wf2(dg, q0, vis0),
+        q0.len() > 0,
+        w_next == q0[0].1 + 1,
+        step_done(dg, q0[0].0, vis0, vis, add),
+        q == q0.skip(1) + new_entries(add, w_next),
+    ensures
+        wf2(dg, q, vis),
+        bstep(dg_has(dg), qv_of(q0), lv_of(q0), vis0, qv_of(q), lv_of(q), vis, add),
+        vis.len() - ct(vis) + q.len() == vis0.len() - ct(vis0) + q0.len() - 1,
+        forall|srcs: Set<int>| #[trigger] inv2(dg, q0, vis0, srcs) ==> next_sem2(dg, q0, vis0, q, vis, srcs),
+{
+    lemma_step_done_vstep(dg, q0[0].0, vis0, vis, add, qv_of(q0), qv_of(q0).skip(1) + add);
+    lemma_bridge_dist(q0, q, add, w_next);
+    assert forall|i: int| 0 <= i < q.len() implies (#[trigger] q[i]).0 < vis.len() && q[i].1 + q.len() <= ct(vis) by {
+        if i < q0.len() - 1 {
+            assert(q[i] == q0[i + 1]);
+        } else {
+            assert(q[i] == (add[i - (q0.len() - 1)] as usize, w_next));
+        }
+    }
+    assert forall|srcs: Set<int>| #[trigger] inv2(dg, q0, vis0, srcs) implies next_sem2(dg, q0, vis0, q, vis, srcs) by {
+        lemma_next_end2_sem(dg, q0, vis0, q, vis, add, srcs);
+    }
+}
+
+proof fn lemma_exhausted2(dg: &Dg, q: Seq<(usize, usize)>, vis: Seq<bool>)
+    requires q.len() == 0,
+    ensures forall|srcs: Set<int>| #[trigger] inv2(dg, q, vis, srcs) ==> (forall|v: int| is_done(qv_of(q), vis, v) <==> reachable(dg_has(dg), srcs, v)),
+{
+    assert forall|srcs: Set<int>| #[trigger] inv2(dg, q, vis, srcs) implies (forall|v: int| is_done(qv_of(q), vis, v) <==> reachable(dg_has(dg), srcs, v)) by {
+        lemma_exhausted_ex(dg_has(dg), qv_of(q), lv_of(q), vis, srcs);
+    }
+}
+
+/*@struct name=BfsDist subst=D=>Dg drop=D @*/
+
+impl<'a> BfsDist<'a> {
+    spec fn has(&self) -> ArcRel { dg_has(self.digraph) }
+    spec fn qv(&self) -> Seq<int> { qv_of(self.queue@) }
+    spec fn lv(&self) -> Seq<int> { lv_of(self.queue@) }
+
+    /// memory-safety / no-overflow part of the invariant
+    spec fn wf(&self) -> bool { wf2(self.digraph, self.queue@, self.visited@) }
+
+    /// BFS invariant relative to the source set (the level function is existential: no ghost state)
+    spec fn inv(&self, srcs: Set<int>) -> bool { inv2(self.digraph, self.queue@, self.visited@, srcs) }
+
+    /// already yielded
+    spec fn done(&self, v: int) -> bool { is_done(self.qv(), self.visited@, v) }
+
+    /// state built by `new` from distinct in-range sources
+    spec fn fresh(&self) -> bool {
+        &&& self.wf()
+        &&& forall|i: int| 0 <= i < self.queue@.len() ==> (#[trigger] self.queue@[i]).1 == 0
+        &&& self.qv().no_duplicates()
+        &&& forall|v: int| #[trigger] is_vis(self.visited@, v) <==> self.qv().contains(v)
+    }
+
+    spec fn srcs(&self) -> Set<int> { self.qv().to_set() }
+
+    /// #vertices not yet yielded (termination measure of the driver loop)
+    spec fn fuel(&self) -> int { self.visited@.len() - ct(self.visited@) + self.queue@.len() }
+
+    proof fn lemma_fresh_inv(&self)
+        requires self.fresh(),
+        ensures self.inv(self.srcs()), forall|v: int| !self.done(v),
+    {
+        lemma_fresh(self.has(), self.qv(), self.lv(), self.visited@);
+        assert(binv(self.has(), self.qv(), self.lv(), self.visited@, self.srcs(), |v: int| 0int));
+    }
+
+    /*@fn impl=BfsDist name=new subst=D=>Dg drop=D dropwhere=D
+    requires
+        digraph.wf(),
+        sources.obeys_prophetic_iter_laws(),
+        sources.decrease() is Some,
+        sources.remaining().no_duplicates(),
+    ensures
+        r.digraph == digraph,
+        r.fresh(),
+        r.queue@.len() == sources.remaining().len(),
+        forall|i: int| 0 <= i < sources.remaining().len() ==> #[trigger] r.queue@[i] == (sources.remaining()[i], 0usize),
+        forall|i: int| 0 <= i < sources.remaining().len() ==> #[trigger] sources.remaining()[i] < digraph.ord(),
+    @after `let mut visited = vec![false; order];`
+        proof { lemma_ct_false(visited@); }
+    @loop 1
+    invariant
+        it1.iter.obeys_prophetic_iter_laws(),
+        it1.iter.decrease() is Some,
+        it1.seq() == sources.remaining(),
+        order == digraph.ord(),
+        visited@.len() == order,
+        it1.seq().no_duplicates(),
+        queue@.len() == it1.index(),
+        forall|i: int| 0 <= i < it1.index() ==> #[trigger] queue@[i] == (it1.seq()[i], 0usize),
+        forall|i: int| 0 <= i < it1.index() ==> #[trigger] it1.seq()[i] < order,
+        forall|v: int| 0 <= v < order ==> #[trigger] visited@[v] == seen_upto(it1.seq(), it1.index(), v),
+        ct(visited@) == it1.index(),
+    @loop_start 1
+        let ghost vis_pre = visited@;
+    @loop_end 1
+        proof {
+            let k = it1.index();
+            assert(u == it1.seq()[k]);
+            assert(it1.seq().no_duplicates());
+            assert(vis_pre[u as int] == seen_upto(it1.seq(), k, u as int));
+            if vis_pre[u as int] {
+                let j = choose|j: int| 0 <= j < k && j < it1.seq().len() && #[trigger] it1.seq()[j] == u;
+                assert(it1.seq()[j] == it1.seq()[k]);
+            }
+            lemma_ct_set(vis_pre, u as int);
+            assert forall|v: int| 0 <= v < order implies #[trigger] visited@[v] == seen_upto(it1.seq(), k + 1, v) by {
+                if seen_upto(it1.seq(), k, v) {
+                    let j = choose|j: int| 0 <= j < k && j < it1.seq().len() && #[trigger] it1.seq()[j] == v;
+                    assert(it1.seq()[j] == v);
+                }
+                if v == u { assert(it1.seq()[k] == v); }
+                if seen_upto(it1.seq(), k + 1, v) && v != u {
+                    let j = choose|j: int| 0 <= j < k + 1 && j < it1.seq().len() && #[trigger] it1.seq()[j] == v;
+                    assert(j < k);
+                }
+            }
+        }
+    @fn_end
+        proof {
+            let s = sources.remaining();
+            assert forall|i: int, j: int| 0 <= i < j < qv_of(queue@).len() implies qv_of(queue@)[i] != qv_of(queue@)[j] by {
+                assert(queue@[i] == (s[i], 0usize));
+                assert(queue@[j] == (s[j], 0usize));
+            }
+            assert forall|v: int| #[trigger] is_vis(visited@, v) <==> qv_of(queue@).contains(v) by {
+                if is_vis(visited@, v) {
+                    let j = choose|j: int| 0 <= j < s.len() && j < s.len() && #[trigger] s[j] == v;
+                    assert(queue@[j] == (s[j], 0usize));
+                    assert(qv_of(queue@)[j] == v);
+                }
+                if qv_of(queue@).contains(v) {
+                    let j = choose|j: int| 0 <= j < qv_of(queue@).len() && qv_of(queue@)[j] == v;
+                    assert(queue@[j] == (s[j], 0usize));
+                    assert(s[j] == v);
+                    assert(seen_upto(s, s.len() as int, v));
+                }
+            }
+        }
+    @*/
+
+    /*@fn impl=BfsDist trait=Iterator name=next subst=Self::Item=>Step
+    requires
+        old(self).wf(),
+    ensures
+        final(self).wf(),
+        final(self).digraph == old(self).digraph,
+        r is None ==> old(self).queue@.len() == 0 && final(self).queue@ == old(self).queue@ && final(self).visited@ == old(self).visited@,
+        r is None ==> forall|srcs: Set<int>| #[trigger] old(self).inv(srcs) ==> (forall|v: int| old(self).done(v) <==> reachable(old(self).has(), srcs, v)),
+        r matches Some(x) ==> old(self).queue@.len() > 0 && x == old(self).queue@[0] && x.0 < old(self).digraph.ord() && x.1 < old(self).digraph.ord() && final(self).fuel() == old(self).fuel() - 1 && final(self).fuel() >= 0,
+        r is Some ==> exists|add: Seq<int>| bstep(old(self).has(), old(self).qv(), old(self).lv(), old(self).visited@, final(self).qv(), final(self).lv(), final(self).visited@, add),
+        r is Some ==> forall|srcs: Set<int>| #[trigger] old(self).inv(srcs) ==> next_sem2(old(self).digraph, old(self).queue@, old(self).visited@, final(self).queue@, final(self).visited@, srcs),
+    @before `let (u, w) = self.queue.pop_front()?;`
+        proof {
+            if self.queue@.len() == 0 { lemma_exhausted2(self.digraph, self.queue@, self.visited@); }
+            lemma_ct_bounds(self.visited@);
+        }
+        let ghost mut add: Seq<int> = Seq::empty();
+    @after `let w_next = w + 1;`
+        proof {
+            assert(self.queue@ =~= old(self).queue@.skip(1) + new_entries(add, w_next));
+            lemma_loop_init(self.digraph, u, self.visited@);
+        }
+    @loop 1
+    invariant
+        self.digraph == old(self).digraph,
+        self.visited@.len() == self.digraph.ord(),
+        old(self).queue@.len() > 0,
+        (u, w) == old(self).queue@[0],
+        w_next == w + 1,
+        it1.iter.obeys_prophetic_iter_laws(),
+        it1.iter.decrease() is Some,
+        loop_inv(self.digraph, u, old(self).visited@, self.visited@, add, it1.seq(), it1.index()),
+        it1.index() == it1.seq().len() ==> step_done(self.digraph, u, old(self).visited@, self.visited@, add),
+        self.queue@ == old(self).queue@.skip(1) + new_entries(add, w_next),
+    @loop_start 1
+        let ghost vis_pre = self.visited@;
+        let ghost add_pre = add;
+        proof {
+            assert(v == it1.seq()[it1.index()]);
+            assert(v < self.visited@.len()) by { reveal(loop_inv); }
+        }
+    @after `self.queue.push_back((v, w_next));`
+        proof {
+            add = add_pre.push(v as int);
+            assert(self.queue@ =~= old(self).queue@.skip(1) + new_entries(add, w_next));
+        }
+    @loop_end 1
+        proof {
+            lemma_loop_step(self.digraph, u, old(self).visited@, vis_pre, add_pre, it1.seq(), it1.index(), self.visited@, add);
+        }
+    @fn_end
+        proof {
+            lemma_next_end2(self.digraph, old(self).queue@, old(self).visited@, self.queue@, self.visited@, add, w_next);
+            lemma_ct_bounds(self.visited@);
+            lemma_ct_bounds(old(self).visited@);
+            assert(bstep(old(self).has(), old(self).qv(), old(self).lv(), old(self).visited@, self.qv(), self.lv(), self.visited@, add));
+        }
+    @*/
+
+    /*@fn impl=BfsDist name=distances subst=D=>Dg drop=D dropwhere=D
+    requires
+        old(self).fresh(),
+    ensures
+        r@.len() == old(self).digraph.ord(),
+        forall|v: int| 0 <= v < r@.len() ==> (#[trigger] r@[v] == usize::MAX <==> !reachable(old(self).has(), old(self).srcs(), v)),
+        forall|v: int| 0 <= v < r@.len() && #[trigger] r@[v] != usize::MAX ==> is_min_walk_weight(old(self).has(), unit_w(), old(self).srcs(), v, r@[v] as int),
+    @fn_start
+        proof { self.lemma_fresh_inv(); lemma_ct_bounds(self.visited@); }
+    @before `for (u, w) in self`
+        let ghost mut prev = *self;
+    @loop 1
+    invariant_except_break
+        prev == *self,
+    invariant
+        self.wf(),
+        self.digraph == old(self).digraph,
+        order == self.digraph.ord(),
+        self.inv(old(self).srcs()),
+        distances@.len() == order,
+        forall|v: int| 0 <= v < order ==> (#[trigger] distances@[v] == usize::MAX <==> !self.done(v)),
+        forall|v: int| 0 <= v < order && #[trigger] distances@[v] != usize::MAX ==> is_min_walk_weight(self.has(), unit_w(), old(self).srcs(), v, distances@[v] as int),
+        self.fuel() >= 0,
+    ensures
+        self.queue@.len() == 0,
+    decreases
+        self.fuel(),
+    @before `*ptr.add(u) = w;`
+        proof {
+            assert(prev.inv(old(self).srcs()));
+            assert(next_sem2(prev.digraph, prev.queue@, prev.visited@, self.queue@, self.visited@, old(self).srcs()));
+        }
+    @loop_end 1
+        proof { prev = *self; }
+    @fn_end
+        proof {
+            lemma_exhausted2(self.digraph, self.queue@, self.visited@);
+            assert(self.inv(old(self).srcs()));
+        }
+    @*/
+}
+
+// ---------------------------------------------------------------------------------------------
+// C04 trace theorems: verified CLIENTS of the contracts above (template code, not extracted from /repo).
+// They show that `new` + repeated `next` give exactly the behaviour the property text describes.
+// ---------------------------------------------------------------------------------------------
+spec fn occurs1(s: Seq<usize>, v: int) -> bool { exists|i: int| 0 <= i < s.len() && #[trigger] s[i] == v }
+spec fn occurs2(s: Seq<(usize, usize)>, v: int) -> bool { exists|i: int| 0 <= i < s.len() && (#[trigger] s[i]).0 == v }
+
+/// the C04 statement for the items `out` yielded so far by a Bfs in state (q, vis)
+#[verifier::opaque]
+spec fn trace1(has: ArcRel, srcs: Set<int>, out: Seq<usize>, q: Seq<usize>, vis: Seq<bool>) -> bool {
+    &&& out.no_duplicates()
+    &&& forall|v: int| is_done(qv_of1(q), vis, v) <==> #[trigger] occurs1(out, v)
+    &&& forall|i: int| 0 <= i < out.len() ==> is_min_walk_weight(has, unit_w(), srcs, #[trigger] out[i] as int, hop(has, srcs, out[i] as int))
+    &&& forall|i: int, j: int| 0 <= i <= j < out.len() ==> hop(has, srcs, #[trigger] out[i] as int) <= hop(has, srcs, #[trigger] out[j] as int)
+    &&& forall|i: int, k: int| 0 <= i < out.len() && 0 <= k < q.len() ==> hop(has, srcs, #[trigger] out[i] as int) <= hop(has, srcs, #[trigger] q[k] as int)
+}
+
+proof fn lemma_trace1_init(has: ArcRel, srcs: Set<int>, q: Seq<usize>, vis: Seq<bool>)
+    requires forall|v: int| !is_done(qv_of1(q), vis, v),
+    ensures trace1(has, srcs, Seq::<usize>::empty(), q, vis),
+{
+    reveal(trace1);
+}
+
+proof fn lemma_trace1_step(dg: &Dg, srcs: Set<int>, out0: Seq<usize>, q0: Seq<usize>, vis0: Seq<bool>, q: Seq<usize>, vis: Seq<bool>)
+    requires
+        trace1(dg_has(dg), srcs, out0, q0, vis0),
+        q0.len() > 0,
+        next_sem1(dg, q0, vis0, q, vis, srcs),
+    ensures
+        trace1(dg_has(dg), srcs, out0.push(q0[0]), q, vis),
+{
+    reveal(trace1);
+    let has = dg_has(dg);
+    let u = q0[0];
+    let out = out0.push(u);
+    assert(!occurs1(out0, u as int));
+    assert(out[out0.len() as int] == u);
+    assert forall|v: int| is_done(qv_of1(q), vis, v) <==> #[trigger] occurs1(out, v) by {
+        if occurs1(out0, v) {
+            let i = choose|i: int| 0 <= i < out0.len() && #[trigger] out0[i] == v;
+            assert(out[i] == v);
+        }
+        if occurs1(out, v) && v != u {
+            let i = choose|i: int| 0 <= i < out.len() && #[trigger] out[i] == v;
+            assert(out0[i] == v);
+        }
+    }
+    assert forall|i: int| 0 <= i < out0.len() implies hop(has, srcs, #[trigger] out[i] as int) <= hop(has, srcs, u as int) by {
+        assert(out[i] == out0[i]);
+        assert(q0[0] == u);
+    }
+    assert forall|i: int, j: int| 0 <= i < j < out.len() implies out[i] != out[j] by {
+        if j == out0.len() { assert(out0[i] == out[i]); assert(occurs1(out0, out0[i] as int)); }
+        else { assert(out0[i] == out[i] && out0[j] == out[j]); }
+    }
+    assert forall|i: int| 0 <= i < out.len() implies is_min_walk_weight(has, unit_w(), srcs, #[trigger] out[i] as int, hop(has, srcs, out[i] as int)) by {
+        if i < out0.len() { assert(out[i] == out0[i]); }
+    }
+    assert forall|i: int, j: int| 0 <= i <= j < out.len() implies hop(has, srcs, #[trigger] out[i] as int) <= hop(has, srcs, #[trigger] out[j] as int) by {
+        if j < out0.len() { assert(out0[i] == out[i] && out0[j] == out[j]); }
+        else if i < out0.len() { assert(out0[i] == out[i]); }
+    }
+    assert forall|i: int, k: int| 0 <= i < out.len() && 0 <= k < q.len() implies hop(has, srcs, #[trigger] out[i] as int) <= hop(has, srcs, #[trigger] q[k] as int) by {
+        if i < out0.len() { assert(out[i] == out0[i]); }
+    }
+}
+
+/// Bfs from distinct in-range sources yields every reachable vertex exactly once, nothing else,
+/// in non-decreasing order of hop distance from the nearest source
+fn c04_bfs_trace(b: &mut Bfs<'_>) -> (out: Vec<usize>)
+    requires
+        old(b).fresh(),
+    ensures
+        out@.no_duplicates(),
+        forall|v: int| reachable(old(b).has(), old(b).srcs(), v) <==> #[trigger] occurs1(out@, v),
+        forall|i: int| 0 <= i < out@.len() ==> is_min_walk_weight(old(b).has(), unit_w(), old(b).srcs(), #[trigger] out@[i] as int, hop(old(b).has(), old(b).srcs(), out@[i] as int)),
+        forall|i: int, j: int| 0 <= i <= j < out@.len() ==> hop(old(b).has(), old(b).srcs(), #[trigger] out@[i] as int) <= hop(old(b).has(), old(b).srcs(), #[trigger] out@[j] as int),
+{
+    let mut out: Vec<usize> = Vec::new();
+    let ghost has = b.has();
+    let ghost srcs = b.srcs();
+    proof {
+        b.lemma_fresh_inv();
+        lemma_ct_bounds(b.visited@);
+        lemma_trace1_init(has, srcs, b.queue@, b.visited@);
+    }
+    let ghost mut prev = *b;
+    loop
+        invariant_except_break
+            prev == *b,
+        invariant
+            b.wf(),
+            b.digraph == old(b).digraph,
+            has == old(b).has(),
+            srcs == old(b).srcs(),
+            b.inv(srcs),
+            b.fuel() >= 0,
+            trace1(has, srcs, out@, b.queue@, b.visited@),
+        ensures
+            forall|v: int| is_done(qv_of1(b.queue@), b.visited@, v) <==> reachable(has, srcs, v),
+        decreases
+            b.fuel(),
+    {
+        match b.next() {
+            Some(u) => {
+                proof {
+                    assert(prev.inv(srcs));
+                    lemma_trace1_step(b.digraph, srcs, out@, prev.queue@, prev.visited@, b.queue@, b.visited@);
+                }
+                out.push(u);
+                proof { prev = *b; }
+            }
+            None => {
+                proof {
+                    assert(prev.inv(srcs));
+                    assert forall|v: int| is_done(qv_of1(b.queue@), b.visited@, v) <==> reachable(has, srcs, v) by {
+                        assert(prev.done(v) <==> reachable(prev.has(), srcs, v));
+                    }
+                }
+                break;
+            }
+        }
+    }
+    proof { reveal(trace1); }
+    out
+}
+
+/// the C04 statement for the items `out` yielded so far by a BfsDist in state (q, vis)
+#[verifier::opaque]
+spec fn trace2(has: ArcRel, srcs: Set<int>, out: Seq<(usize, usize)>, q: Seq<(usize, usize)>, vis: Seq<bool>) -> bool {
+    &&& forall|i: int, j: int| 0 <= i < j < out.len() ==> (#[trigger] out[i]).0 != (#[trigger] out[j]).0
+    &&& forall|v: int| is_done(qv_of(q), vis, v) <==> #[trigger] occurs2(out, v)
+    &&& forall|i: int| 0 <= i < out.len() ==> is_min_walk_weight(has, unit_w(), srcs, (#[trigger] out[i]).0 as int, out[i].1 as int)
+    &&& forall|i: int, j: int| 0 <= i <= j < out.len() ==> (#[trigger] out[i]).1 <= (#[trigger] out[j]).1
+    &&& forall|i: int, k: int| 0 <= i < out.len() && 0 <= k < q.len() ==> (#[trigger] out[i]).1 <= (#[trigger] q[k]).1
+}
+
+proof fn lemma_trace2_init(has: ArcRel, srcs: Set<int>, q: Seq<(usize, usize)>, vis: Seq<bool>)
+    requires forall|v: int| !is_done(qv_of(q), vis, v),
+    ensures trace2(has, srcs, Seq::<(usize, usize)>::empty(), q, vis),
+{
+    reveal(trace2);
+}
+
+proof fn lemma_trace2_step(dg: &Dg, srcs: Set<int>, out0: Seq<(usize, usize)>, q0: Seq<(usize, usize)>, vis0: Seq<bool>, q: Seq<(usize, usize)>, vis: Seq<bool>)
+    requires
+        trace2(dg_has(dg), srcs, out0, q0, vis0),
+        q0.len() > 0,
+        next_sem2(dg, q0, vis0, q, vis, srcs),
+    ensures
+        trace2(dg_has(dg), srcs, out0.push(q0[0]), q, vis),
+{
+    reveal(trace2);
+    let has = dg_has(dg);
+    let x = q0[0];
+    let out = out0.push(x);
+    assert(!occurs2(out0, x.0 as int));
+    assert(out[out0.len() as int] == x);
+    assert forall|v: int| is_done(qv_of(q), vis, v) <==> #[trigger] occurs2(out, v) by {
+        if occurs2(out0, v) {
+            let i = choose|i: int| 0 <= i < out0.len() && (#[trigger] out0[i]).0 == v;
+            assert(out[i].0 == v);
+        }
+        if occurs2(out, v) && v != x.0 {
+            let i = choose|i: int| 0 <= i < out.len() && (#[trigger] out[i]).0 == v;
+            assert(out0[i].0 == v);
+        }
+    }
+    assert forall|i: int| 0 <= i < out0.len() implies (#[trigger] out[i]).1 <= x.1 by {
+        assert(out[i] == out0[i]);
+        assert(q0[0] == x);
+    }
+    assert forall|i: int, j: int| 0 <= i < j < out.len() implies (#[trigger] out[i]).0 != (#[trigger] out[j]).0 by {
+        if j == out0.len() { assert(out0[i] == out[i]); assert(occurs2(out0, out0[i].0 as int)); }
+        else { assert(out0[i] == out[i] && out0[j] == out[j]); }
+    }
+    assert forall|i: int| 0 <= i < out.len() implies is_min_walk_weight(has, unit_w(), srcs, (#[trigger] out[i]).0 as int, out[i].1 as int) by {
+        if i < out0.len() { assert(out[i] == out0[i]); }
+    }
+    assert forall|i: int, j: int| 0 <= i <= j < out.len() implies (#[trigger] out[i]).1 <= (#[trigger] out[j]).1 by {
+        if j < out0.len() { assert(out0[i] == out[i] && out0[j] == out[j]); }
+        else if i < out0.len() { assert(out0[i] == out[i]); }
+    }
+    assert forall|i: int, k: int| 0 <= i < out.len() && 0 <= k < q.len() implies (#[trigger] out[i]).1 <= (#[trigger] q[k]).1 by {
+        if i < out0.len() { assert(out[i] == out0[i]); }
+    }
+}
+
+/// BfsDist from distinct in-range sources yields every reachable vertex exactly once, nothing else, each paired with
+/// its exact hop distance from the nearest source, in non-decreasing order of that distance
+fn c04_bfs_dist_trace(b: &mut BfsDist<'_>) -> (out: Vec<(usize, usize)>)
+    requires
+        old(b).fresh(),
+    ensures
+        forall|i: int, j: int| 0 <= i < j < out@.len() ==> (#[trigger] out@[i]).0 != (#[trigger] out@[j]).0,
+        forall|v: int| reachable(old(b).has(), old(b).srcs(), v) <==> #[trigger] occurs2(out@, v),
+        forall|i: int| 0 <= i < out@.len() ==> is_min_walk_weight(old(b).has(), unit_w(), old(b).srcs(), (#[trigger] out@[i]).0 as int, out@[i].1 as int),
+        forall|i: int, j: int| 0 <= i <= j < out@.len() ==> (#[trigger] out@[i]).1 <= (#[trigger] out@[j]).1,
+{
+    let mut out: Vec<(usize, usize)> = Vec::new();
+    let ghost has = b.has();
+    let ghost srcs = b.srcs();
+    proof {
+        b.lemma_fresh_inv();
+        lemma_ct_bounds(b.visited@);
+        lemma_trace2_init(has, srcs, b.queue@, b.visited@);
+    }
+    let ghost mut prev = *b;
+    loop
+        invariant_except_break
+            prev == *b,
+        invariant
+            b.wf(),
+            b.digraph == old(b).digraph,
+            has == old(b).has(),
+            srcs == old(b).srcs(),
+            b.inv(srcs),
+            b.fuel() >= 0,
+            trace2(has, srcs, out@, b.queue@, b.visited@),
+        ensures
+            forall|v: int| is_done(qv_of(b.queue@), b.visited@, v) <==> reachable(has, srcs, v),
+        decreases
+            b.fuel(),
+    {
+        match b.next() {
+            Some(x) => {
+                proof {
+                    assert(prev.inv(srcs));
+                    lemma_trace2_step(b.digraph, srcs, out@, prev.queue@, prev.visited@, b.queue@, b.visited@);
+                }
+                out.push(x);
+                proof { prev = *b; }
+            }
+            None => {
+                proof {
+                    assert(prev.inv(srcs));
+                    assert forall|v: int| is_done(qv_of(b.queue@), b.visited@, v) <==> reachable(has, srcs, v) by {
+                        assert(prev.done(v) <==> reachable(prev.has(), srcs, v));
+                    }
+                }
+                break;
+            }
+        }
+    }
+    proof { reveal(trace2); }
+    out
 }
 
 } // verus!
